@@ -19,6 +19,16 @@ CLAIMED = {
              'model\'s field list. Held on the executions observed only.',
         note='Trusted: vf/model/encode.py (field order / packing rules listed in evidence.assumptions), the generator\'s '
              'promise of textually disjoint alternatives.'),
+    'C08': dict(
+        category='exploration', design_ref='DESIGN.md §3 C08',
+        technique='runtime monitoring: sequential reference interpreter of the directive stream vs marker bytes in the image '
+                  'of real CLI runs; ConditionStack event-log probe',
+        text='Generated directive trees (depth<=4; #if with six operators / bare / differing numeral notations / text, #ifdef, '
+             '#ifndef, #elif, #else) with a unique marker byte per region and side effects (#define incl. the guard idiom, '
+             'labels, constants, #create_memzone, #mute, #include) inside branches followed by probes; the image must equal the '
+             'interpreter + layout prediction; stray #else/#elif/#endif must be rejected. thorough: exhaustive small structures '
+             'x truth assignments.',
+        note='Trusted: vf/model/cond.py; conditions over undefined symbols and includes issued while muted are DONT_CARE.'),
     'C11': dict(
         category='exploration', design_ref='DESIGN.md §3 C11',
         technique='runtime monitoring: byte-model oracle over real CLI runs of generated data/string/fill programs',
